@@ -6,6 +6,8 @@ import gen_r64      # noqa: F401  (registers suites)
 import gen_bsi      # noqa: F401
 import gen_kern     # noqa: F401
 import gen_contops  # noqa: F401
+import gen_contq    # noqa: F401
+import gen_l2rep    # noqa: F401
 import gen_ser      # noqa: F401
 import gen_alias    # noqa: F401
 import gen_iter     # noqa: F401
